@@ -31,6 +31,17 @@ CHECKS = {
         "note": NOTE_COMMON + " kirin's CSE/DCE and Python-to-IR lowering are exercised, not verified; auto blocks cannot be executed, so they are compared structurally only.",
         "technique": "Coq refinement proof over nested blocks (custom induction) + IR abstraction correspondence",
     },
+    "C05": {
+        "text": "Theorems for an ARBITRARY tracer, value, kernel and spec type: the plain interpreter with the recorded spec and the spec-carrying "
+                "interpreter compute the same outcome; folding returns a path only if it is the run-time path and equals run-time evaluation on "
+                "device tasks; with no spec, a non-device callee or a failing kernel no route returns a path (run time raises, folding leaves the "
+                "call or raises); the reversed wrapper yields the reversed path with the same tones; EVERY permutation of the keyword pairs gives "
+                "the same ordered argument list = positionals followed by the remaining parameters in signature order (missing keyword = error). "
+                "Tie: kernels of arity 0-4 whose path encodes each argument, every split and every keyword permutation, both directions, "
+                "constant and non-constant operands, on all routes; permute compared with the argument order read back from the played paths.",
+        "note": NOTE_COMMON + " kirin's const.Propagate/Fold machinery that decides WHEN folding happens is exercised, not verified.",
+        "technique": "Coq proofs parametric in the tracer (incl. permutation invariance) + exhaustive small-arity correspondence",
+    },
     "C11": {
         "text": "Theorems: every path the tracer model yields is well formed (invariant proved for all op sequences) and reversal preserves "
                 "well-formedness. wfb is evaluated in Coq on every path produced by generated kernels, library kernels and their reversals; a Python "
